@@ -291,7 +291,14 @@ def gen_ops_cases(rng, count, weakly, max_atoms=5, max_conds=7, nq=6, prefix="g"
         if base and rng.random() < 0.33:
             ks = rng.sample(range(0, 3 * len(base) + 4), len(base))
             base = [(ks[j], b, a) for j, (_, b, a) in enumerate(base)]
-        cases.append(make_case("%s%d" % (prefix, i), n, base, qs, weakly))
+        cs_ = make_case("%s%d" % (prefix, i), n, base, qs, weakly)
+        r_ = rng.random()
+        if r_ < 0.08 and cs_["n"] >= 2:
+            keep = rng.sample(range(cs_["n"]), rng.randrange(1, cs_["n"]))      # a declared signature that leaves atoms out
+            cs_["declared"] = [cs_["sig"][j] for j in sorted(keep)]
+        elif r_ < 0.2:
+            cs_["nary"] = True                                                   # chains as n-ary nodes
+        cases.append(cs_)
     return cases
 
 
